@@ -162,6 +162,36 @@ impl Op {
         }
     }
 
+    /// requests that change the archive when they are accepted
+    fn mutating(&self) -> bool {
+        matches!(
+            self,
+            Op::Write { .. }
+                | Op::WriteBytes { .. }
+                | Op::WriteString { .. }
+                | Op::WritePointer { .. }
+                | Op::WriteLabel { .. }
+                | Op::WriteLabels { .. }
+                | Op::WriteCString { .. }
+                | Op::DeleteString { .. }
+                | Op::DeletePointer { .. }
+                | Op::DeleteLabels { .. }
+                | Op::DeleteLabel { .. }
+                | Op::Allocate { .. }
+                | Op::AllocateAtEnd { .. }
+                | Op::Deallocate { .. }
+                | Op::Truncate { .. }
+                | Op::SWrite { .. }
+                | Op::SWriteBytes { .. }
+                | Op::SWriteString { .. }
+                | Op::SWritePointer { .. }
+                | Op::SWriteCString { .. }
+                | Op::SWriteLabel { .. }
+                | Op::SAllocate { .. }
+                | Op::SAllocateAtEnd { .. }
+        )
+    }
+
     /// the property whose statement governs this operation
     fn owner(&self) -> &'static str {
         match self {
@@ -611,6 +641,25 @@ fn check_state(ctx: &mut RunCtx, w: &World, owner: &str, api: &str) -> Step<()> 
         if al != ml {
             return Some(format!("all_labels: mila {:?}, model {:?}", al, ml));
         }
+        // the other two label views: the sorted flat list and the lookup by name
+        let mut flat: Vec<(usize, String)> = m.all_labels();
+        flat.sort();
+        let gl = a.get_labels();
+        if gl != flat {
+            return Some(format!("get_labels: mila {:?}, model (sorted) {:?}", gl, flat));
+        }
+        for (addr, name) in &flat {
+            let want: Vec<usize> = flat.iter().filter(|(_, s)| s == name).map(|(k, _)| *k).collect();
+            match a.find_label_address(name) {
+                Some(x) if want.contains(&x) => {}
+                other => {
+                    return Some(format!("find_label_address({:?}): mila {:?}, model one of {:?} (e.g. {:#x})", name, other, want, addr));
+                }
+            }
+        }
+        if let Some(x) = a.find_label_address("\u{1}no such label\u{1}") {
+            return Some(format!("find_label_address(absent name): mila Some({:#x})", x));
+        }
         let pd: std::collections::BTreeSet<usize> = a.pointer_destinations().into_iter().collect();
         if pd != m.pointer_destinations() {
             return Some(format!("pointer_destinations: mila {:?}, model {:?}", pd, m.pointer_destinations()));
@@ -732,6 +781,9 @@ fn exec(ctx: &mut RunCtx, w: &mut World, op: &Op) -> Step<()> {
     let size0 = w.m.size();
     let mut mutated_ok = false;
     let mut rejected = false;
+    // the stored form before a request that may be rejected: a rejected request changes nothing,
+    // including what only shows when the archive is serialized (pending c-string buckets)
+    let image0: Option<Vec<u8>> = if op.mutating() { guarded(|| w.a.serialize().ok()).ok().flatten() } else { None };
     match op {
         Op::Read { ty, a } => {
             let got = ctx.mila(api, || typed_read(&w.a, *ty, *a))?;
@@ -901,24 +953,10 @@ fn exec(ctx: &mut RunCtx, w: &mut World, op: &Op) -> Step<()> {
             let got = ctx.mila(api, || w.a.truncate(*a).map(|_| Val::Unit))?;
             let unspecified = w.m.truncate(*a);
             mutated_ok = cmp(ctx, owner, api, got, Ok(Val::Unit), false)?;
-            // pointers that survive but point at or beyond the cut: the statement is silent
-            for cell in unspecified {
-                let old = w.m.pointers.get(&cell).copied();
-                let now = ctx.mila(api, || w.a.read_pointer(cell))?;
-                match now {
-                    Ok(None) => {
-                        w.m.pointers.remove(&cell);
-                    }
-                    Ok(x) if x == old => {}
-                    other => {
-                        return ctx.violation_for(
-                            owner,
-                            "state_after_op",
-                            format!("{}|dangling_pointer_changed", api),
-                            format!("after truncate({:#x}) pointer cell {:#x} reads {:?}, was {:?}", a, cell, other.ok(), old),
-                        )
-                    }
-                }
+            // a pointer cell in front of the cut is not "at or beyond the cut": it stays, whatever it
+            // points at (the ordinary state comparison below checks that)
+            if !unspecified.is_empty() {
+                ctx.probe("truncate_leaves_pointer_to_removed_region");
             }
             w.structural_since_cs |= *a < size0;
         }
@@ -1214,6 +1252,20 @@ fn exec(ctx: &mut RunCtx, w: &mut World, op: &Op) -> Step<()> {
     if rejected {
         w.rejects += 1;
         ctx.fault("rejected_request");
+        if let Some(before) = &image0 {
+            if let Ok(Some(after)) = guarded(|| w.a.serialize().ok()) {
+                if &after != before {
+                    let at = (0..before.len().min(after.len())).find(|i| before[*i] != after[*i]).unwrap_or(before.len().min(after.len()));
+                    return ctx.violation_for(
+                        owner,
+                        "state_after_op",
+                        format!("{}|rejected_request_changed_the_image", api),
+                        format!("{} was rejected, but the serialized archive changed: {} bytes before, {} bytes after, first difference at {:#x}", api, before.len(), after.len(), at),
+                    );
+                }
+                ctx.probe("rejected_request_image_unchanged");
+            }
+        }
     }
     check_state(ctx, w, owner, api)?;
     ctx.state(w.m.state_hash());
